@@ -135,7 +135,9 @@ def map_diags(meta, diags, woven_name):
             continue
         fpath = f[0]["path"]
         # 1. the primary span is a registered clause / tagged hint (failed ensures, invariant, hint)
-        direct = [o for o in obs_at(L) if o["kind"] != "site"]
+        direct = [o for o in obs_at(L) if o["kind"] not in ("site", "loop-header")]
+        if not direct:
+            direct = [o for o in obs_at(L) if o["kind"] == "loop-header"]
         # "postcondition not satisfied": primary is the ensures clause; "invariant not satisfied": the clause
         if direct:
             for o in direct:
